@@ -57,7 +57,7 @@ def _cases(tier):
     sc = _sc()
     out = []
 
-    def mk(divs=4, tss=(), kss=(), clefs=(), measures=(), note=(0, 32), staves=1, musical=None, rests=(), first_number=1):
+    def mk(divs=4, tss=(), kss=(), clefs=(), measures=(), note=(0, 32), staves=1, musical=None, rests=(), first_number=1, then=None):
         def f():
             p = sc.Part("P", quarter_duration=divs)
             for t, b_, bt in tss:
@@ -80,6 +80,14 @@ def _cases(tier):
                 p.add(sc.Rest(id="r%d" % k_, voice=5, staff=1), rs, re_)
             if musical is not None:
                 p.use_musical_beat(musical)
+            if then == "notated":
+                # the user's beats taken back: the documented defaults are in force again
+                p.use_notated_beat()
+                p._verif_tss = [(t, b_, bt, {6: 2, 9: 3, 12: 4}.get(b_, b_)) for t, b_, bt in tss]
+            elif then == "default_musical":
+                p.use_notated_beat()
+                p.use_musical_beat()
+                p._verif_tss = [(t, b_, bt, {6: 2, 9: 3, 12: 4}.get(b_, b_)) for t, b_, bt in tss]
             return p
         return f
     out.append(("nothing_at_all", mk()))
@@ -111,6 +119,8 @@ def _cases(tier):
     out.append(("musical_beats_seven_eight_in_three_with_a_pickup", mk(divs=2, tss=[(0, 7, 8)], measures=[(0, 3), (3, 10), (10, 17)], note=(0, 17), musical={"7/8": 3})))
     # the upbeat bar counted as bar 0 (as editions and the kern reader number it)
     out.append(("pickup_numbered_zero_3_4", mk(tss=[(0, 3, 4)], measures=[(0, 4), (4, 16), (16, 28)], note=(0, 28), first_number=0)))
+    out.append(("user_beats_for_4_4_and_5_8_then_notated_beats_again", mk(divs=2, tss=[(0, 4, 4), (16, 5, 8), (26, 6, 8)], measures=[(0, 8), (8, 16), (16, 21), (21, 26), (26, 32)], note=(0, 32), musical={"4/4": 2, "5/8": 2, "6/8": 3}, then="notated")))
+    out.append(("user_beats_for_4_4_and_5_8_then_the_default_musical_beats", mk(divs=2, tss=[(0, 4, 4), (16, 5, 8), (26, 6, 8)], measures=[(0, 8), (8, 16), (16, 21), (21, 26), (26, 32)], note=(0, 32), musical={"4/4": 2, "5/8": 2, "6/8": 3}, then="default_musical")))
     out.append(("pickup_4_4", mk(tss=[(0, 4, 4)], kss=[(0, 1, "major")], clefs=[(0, 1, "G", 2, 0)], measures=[(0, 4), (4, 20), (20, 36)], note=(0, 36))))
     # musical beats enabled: a full first bar stays a full bar, a pickup stays a pickup (the extent of a measure does not depend on the beat unit)
     out.append(("musical_beats_full_first_bar_4_4_in_two", mk(tss=[(0, 4, 4)], measures=[(0, 16), (16, 32)], note=(0, 32), musical={"4/4": 2})))
